@@ -3,7 +3,8 @@ from simcheck import sim_check
 
 
 def run(tier, seed, replay):
-    kws = [dict(burst=0.08), dict(burst=0.08, max_size=1), dict(sessions=True), dict(nclients=3, length=90), dict(max_size=1), dict(policy="black"), dict(policy="white", auth="custom")]
+    kws = [dict(burst=0.08), dict(burst=0.08, max_size=1), dict(sessions=True), dict(nclients=3, length=90), dict(max_size=1), dict(policy="black"), dict(policy="white", auth="custom"),
+           dict(max_size=1, quiet_tail=1.0, length=25), dict(max_size=30, quiet_tail=1.0, nclients=2, timeout=60), dict(auth="proto", nclients=2)]
     return sim_check("C01", tier, seed, kws, n_quick=240, n_thorough=24000,
                      oracle_props={"C01"}, known_ids=("D02", "D17", "D19", "D25"),
                      extra_assumptions=["convergence itself is NOT proved as a theorem (see Properties/C01.v): it is decided here by model/implementation correspondence plus the "
